@@ -1388,7 +1388,30 @@ impl ASN1Value {
                     identifier,
                 },
             ) => {
-                if let Some(ToplevelDefinition::Value(tld)) = tlds.get(identifier) {
+                // Follow chains of value references, but not in circles
+                let mut visited = vec![&*identifier];
+                let mut referenced = tlds.get(identifier);
+                while let Some(ToplevelDefinition::Value(ToplevelValueDefinition {
+                    value:
+                        ASN1Value::ElsewhereDeclaredValue {
+                            module: None,
+                            parent: None,
+                            identifier: next,
+                        },
+                    ..
+                })) = referenced
+                {
+                    if visited.contains(&next) {
+                        return Err(grammar_error!(
+                            LinkerError,
+                            "Failed to link value: value reference '{}' is cyclic",
+                            next
+                        ));
+                    }
+                    visited.push(next);
+                    referenced = tlds.get(next);
+                }
+                if let Some(ToplevelDefinition::Value(tld)) = referenced {
                     *self = tld.value.clone();
                     self.link_with_type(tlds, ty, type_name)?;
                 }
